@@ -5,6 +5,7 @@ package p2p
 
 import (
 	"bytes"
+	"context"
 	"crypto/sha256"
 	"encoding/binary"
 	"fmt"
@@ -13,6 +14,7 @@ import (
 	"os"
 	"sync"
 	"sync/atomic"
+	"syscall"
 	"time"
 
 	"verifharness/internal/model"
@@ -234,6 +236,9 @@ type Peer struct {
 	closed bool
 	rerr   error
 	notify chan struct{}
+
+	paused  int32 // StopReading
+	closing bool  // Close was called
 }
 
 var listenCounter uint32
@@ -247,12 +252,29 @@ const SetupFailure = "HARNESS-SETUP-FAILURE"
 // sockets that thousands of short sessions leave in TIME_WAIT (bound to 127.0.0.1:port for 60 s)
 // never conflict with a listener bind, which on 127.0.0.1 exhausts the port range within a minute
 // of a 16-process run ("bind: address already in use"). Failures are retried.
-func Listen() (*Peer, error) {
+func Listen() (*Peer, error) { return ListenBuf(0) }
+
+// ListenBuf is Listen with the receive buffer of the listening socket (inherited by the accepted
+// connection, so in force from the first window the peer advertises) set to rcvbuf bytes when
+// rcvbuf > 0: a peer that stops reading then blocks the node's writer after kilobytes.
+func ListenBuf(rcvbuf int) (*Peer, error) {
+	lc := net.ListenConfig{}
+	if rcvbuf > 0 {
+		lc.Control = func(network, address string, c syscall.RawConn) error {
+			var serr error
+			if err := c.Control(func(fd uintptr) {
+				serr = syscall.SetsockoptInt(int(fd), syscall.SOL_SOCKET, syscall.SO_RCVBUF, rcvbuf)
+			}); err != nil {
+				return err
+			}
+			return serr
+		}
+	}
 	var lastErr error
 	for attempt := 0; attempt < 100; attempt++ {
 		n := atomic.AddUint32(&listenCounter, 1)
 		ip := 2 + (uint32(os.Getpid())*37+n)%250
-		ln, err := net.Listen("tcp", fmt.Sprintf("127.0.0.%d:0", ip))
+		ln, err := lc.Listen(context.Background(), "tcp", fmt.Sprintf("127.0.0.%d:0", ip))
 		if err == nil {
 			return &Peer{ln: ln, notify: make(chan struct{}, 1)}, nil
 		}
@@ -276,8 +298,31 @@ func (p *Peer) Accept(timeout time.Duration) error {
 	return nil
 }
 
+// StopReading makes the peer stop taking bytes from the connection (after at most one more
+// frame): the node's replies then pile up in the socket buffers and its writer blocks. The receive
+// buffer is made small so that this takes kilobytes rather than megabytes.
+func (p *Peer) StopReading() {
+	if tc, ok := p.conn.(*net.TCPConn); ok {
+		tc.SetReadBuffer(4096)
+	}
+	atomic.StoreInt32(&p.paused, 1)
+}
+
 func (p *Peer) reader() {
 	for {
+		for atomic.LoadInt32(&p.paused) == 1 {
+			p.mu.Lock()
+			closed := p.closing
+			p.mu.Unlock()
+			if closed {
+				p.mu.Lock()
+				p.closed = true
+				p.mu.Unlock()
+				p.wake()
+				return
+			}
+			time.Sleep(time.Millisecond)
+		}
 		f, err := ReadFrame(p.conn)
 		p.mu.Lock()
 		if err != nil {
@@ -390,6 +435,9 @@ func (p *Peer) WaitClosed(timeout time.Duration) bool {
 }
 
 func (p *Peer) Close() {
+	p.mu.Lock()
+	p.closing = true
+	p.mu.Unlock()
 	if p.conn != nil {
 		p.conn.Close()
 	}
